@@ -161,6 +161,14 @@ func runC11Case(rt *rapid.T) {
 			do(model.Op{K: model.MRange})
 			do(model.Op{K: model.MSize})
 		}
+		// point lookups of a whole window of the universe (Load walks chains differently from Range)
+		w := U
+		start := 0
+		if U > 3000 {
+			w = 3000
+			start = (next * 7919) % (U - w)
+		}
+		do(model.Op{K: model.HBulkGet, Key: start, N: w})
 	}
 	rt.Repeat(map[string]func(*rapid.T){
 		"step": func(rt *rapid.T) {
